@@ -251,6 +251,10 @@ func (s Server) LeafSelectionQuery(ctx context.Context, req *admin.LeafSelection
 			newChanges[path] = updateValue
 		}
 
+		if config.Values == nil {
+			// a configuration none of whose transactions was committed yet has no values
+			config.Values = make(map[string]*configapi.PathValue)
+		}
 		for _, path := range deletes {
 			if _, ok := config.Values[path]; ok {
 				config.Values[path].Deleted = true
